@@ -30,6 +30,8 @@ Oracle (only what the statement says):
                                   watch on a node of another live session, and
                                   the wait-for relation is acyclic
 """
+import time
+
 from mc import boundx
 from mc import c17_ilv as ilv
 from mc import c17_seq as seq
@@ -51,20 +53,21 @@ PLAN = {
                   ('states', 'P1', 1, 3),
                   ('states', 'P6', 0, 5),
                   ('states', 'P2', 1, 8)],
-        'ep_len': 4, 'seq_weight': 2,
+        'ep_len': 4,
     },
     'thorough': {
         'parts': [('stateless', 'P6', 0, 3, 1),
-                  ('stateless', 'P1', 1, 3, 6),
-                  ('stateless', 'P2', 1, 2, 3),
-                  ('stateless', 'P4', 1, 1, 2),
+                  ('stateless', 'P6', 1, 1, 2),
+                  ('stateless', 'P4', 1, 1, 6),
+                  ('stateless', 'P2', 1, 2, 4),
+                  ('stateless', 'P1', 1, 3, 14),
                   ('states', 'P5', 2, 1),
-                  ('states', 'P1', 2, 4),
-                  ('states', 'P3', 2, 8),
-                  ('states', 'P4', 0, 8),
-                  ('states', 'P2', 2, 22),
-                  ('states', 'P6', 1, 40)],
-        'ep_len': 6, 'seq_weight': 8,
+                  ('states', 'P1', 2, 6),
+                  ('states', 'P6', 0, 4),
+                  ('states', 'P3', 2, 18),
+                  ('states', 'P4', 0, 16),
+                  ('states', 'P2', 2, 50)],
+        'ep_len': 5,
     },
 }
 
@@ -184,10 +187,31 @@ def run(ctx):
                 cur['count'] = n
                 cur['detail']['without_environment_deviation'] = nd
 
-    import time
     t_end = time.perf_counter() + budget * 0.95
+
+    # -- sequential sub-checks
+    chunks = []
+    for n in range(1, plan['ep_len'] + 1):
+        if n <= 4:
+            chunks += [('ep', n, (a,)) for a in range(len(seq.OPS))]
+        else:
+            chunks += [('ep', n, (a, b)) for a in range(len(seq.OPS))
+                       for b in range(len(seq.OPS))]
+    chunks.append(('unsched',))
+    sw = boundx.sweep(chunks, seq.worker, workers=ctx.workers,
+                      time_cap=budget * 0.12, ordered=False)
+    cov['caps_hit'].extend(sw.caps_hit)
+    if not sw.exhaustive:
+        exhaustive = False
+    for v in sw.violation_list():
+        violations[(v['clause'], v['site'])] = v
+    cov['sequential'] = {'cases': sw.cases, 'nontrivial': sw.nontrivial,
+                         'counters': dict(sw.counters),
+                         'endpoint_presence_max_len': plan['ep_len']}
+    cov['samples'].extend(sw.samples[:3])
+
     parts = list(plan['parts'])
-    weights = [p[-1] for p in parts] + [plan['seq_weight']]
+    weights = [p[-1] for p in parts]
 
     def cap_for(i):
         left = max(1.0, t_end - time.perf_counter())
@@ -253,27 +277,6 @@ def run(ctx):
                 continue
             cov['samples'].append({'config': cfgname, 'choices': list(pre),
                                    'schedule': tr.labels})
-
-    # -- sequential sub-checks
-    chunks = []
-    for n in range(1, plan['ep_len'] + 1):
-        if n <= 4:
-            chunks += [('ep', n, (a,)) for a in range(len(seq.OPS))]
-        else:
-            chunks += [('ep', n, (a, b)) for a in range(len(seq.OPS))
-                       for b in range(len(seq.OPS))]
-    chunks.append(('unsched',))
-    sw = boundx.sweep(chunks, seq.worker, workers=ctx.workers,
-                      time_cap=cap_for(len(parts)), ordered=False)
-    cov['caps_hit'].extend(sw.caps_hit)
-    if not sw.exhaustive:
-        exhaustive = False
-    for v in sw.violation_list():
-        violations[(v['clause'], v['site'])] = v
-    cov['sequential'] = {'cases': sw.cases, 'nontrivial': sw.nontrivial,
-                         'counters': dict(sw.counters),
-                         'endpoint_presence_max_len': plan['ep_len']}
-    cov['samples'].extend(sw.samples[:3])
 
     if not violations and (tot['shared'] == 0 or tot['contended'] == 0):
         raise RuntimeError('vacuous: no execution in which two sessions met '
